@@ -283,6 +283,14 @@ func runC15(c c15Case, ev *Ev) error {
 		// an AMBR / MBR change: the meter cells of both QERs are reprogrammed, then the entries rewritten
 		target = model.Op{Kind: "mod", Peer: 0, Seq: 300, Sess: 0, Note: "any",
 			UpdQERs: []model.QER{{ID: 1, QFI: 9, MBRUL: 3000, MBRDL: 3000}, {ID: 2, QFI: 9, MBRUL: 70000, MBRDL: 70000}}}
+	case "modpdr":
+		// Update PDRs that restate both rules of session 0: nothing is acquired, so a failure must not give
+		// anything back either (the references on the application filters were taken at establishment)
+		restated := c15Session(0, peerA, sdfF, true).PDRs
+		if c.Asym {
+			restated[1].SDF = "permit out udp from 6.6.6.0/24 to assigned"
+		}
+		target = model.Op{Kind: "mod", Peer: 0, Seq: 300, Sess: 0, Note: "any", UpdPDRs: restated}
 	case "del":
 		target = model.Op{Kind: "del", Peer: 0, Seq: 300, Sess: 0, Note: "any"}
 	}
@@ -309,7 +317,7 @@ func runC15(c c15Case, ev *Ev) error {
 	if c.Target == "mod" && !o.Accepted {
 		c15AltPeer[0] = target.UpdFARs[0].Peer
 	}
-	if injected && o.Accepted && (c.Target == "est" || c.Target == "mod" || c.Target == "modqer") {
+	if injected && o.Accepted && (c.Target == "est" || c.Target == "mod" || c.Target == "modqer" || c.Target == "modpdr") {
 		return fmt.Errorf("%s whose datapath write %d failed with %s was answered with acceptance\n%s", c.Target, c.K, c.Code, p4Diag(r, from))
 	}
 	if ev != nil {
@@ -372,17 +380,17 @@ var c15Codes = []string{"UNAVAILABLE", "INVALID_ARGUMENT", "RESOURCE_EXHAUSTED"}
 func TestC15Enum(t *testing.T) {
 	ev := newEv("C15")
 	defer ev.write()
-	ev.Rule = "fault enumeration on a fresh UP4 agent whose switch declares 9-cell meters and 16-cell counters: two sessions (application + session QER, shared gNB and filter; in a third of the scenarios the downlink PDR of the first session has an application filter nothing else uses), then the target request {establishment (sharing / not sharing peer and filter), Update FAR modification (same / new peer), Update QER modification (new rates for the application and the session QER), deletion} with the k-th Write RPC failing, for every k up to the number of Writes of the fault-free run and each code {gRPC UNAVAILABLE, UNKNOWN+INVALID_ARGUMENT, UNKNOWN+RESOURCE_EXHAUSTED}, then 4 (quick) / 7 (thorough) further sessions; non-trivial = the failing write is not the first of the request"
+	ev.Rule = "fault enumeration on a fresh UP4 agent whose switch declares 9-cell meters and 16-cell counters: two sessions (application + session QER, shared gNB and filter; in a third of the scenarios the downlink PDR of the first session has an application filter nothing else uses), then the target request {establishment (sharing / not sharing peer and filter), Update FAR modification (same / new peer), Update QER modification (new rates for the application and the session QER), Update PDR modification (both rules restated), deletion} with the k-th Write RPC failing, for every k up to the number of Writes of the fault-free run and each code {gRPC UNAVAILABLE, UNKNOWN+INVALID_ARGUMENT, UNKNOWN+RESOURCE_EXHAUSTED}, then 4 (quick) / 7 (thorough) further sessions; non-trivial = the failing write is not the first of the request"
 	ev.Assume = []string{"ALREADY_EXISTS is tolerated by documented design and not injected", "identifier leaks after a failed request are C05's business; C15 asserts exclusivity, no hand-out while in use (also in its precursor form, hook: no identifier referenced by an entry of a live session sits in its free pool), no migration (a pool never exceeds its start-up size) and rejection"}
 	codes := c15Codes
 	if !thorough() {
 		codes = c15Codes[:2]
 	}
 	n := 0
-	for _, target := range []string{"est", "mod", "modqer", "del"} {
+	for _, target := range []string{"est", "mod", "modqer", "modpdr", "del"} {
 		for _, variant := range []struct{ shared, asym, solo bool }{{true, false, false}, {false, false, false}, {true, true, false}, {false, false, true}} {
 			shared, asym, solo := variant.shared, variant.asym, variant.solo
-			if (target == "del" || target == "modqer") && !shared {
+			if (target == "del" || target == "modqer" || target == "modpdr") && !shared {
 				continue
 			}
 			if solo && target != "mod" {
@@ -423,7 +431,7 @@ func TestC15Multi(t *testing.T) {
 	ev := newEv("C15")
 	ev.Rule = "random multi-fault plans (1-3 failing Writes with drawn codes) on the same scenario family"
 	runProp(t, ev, "enum", true, func(rt *rapid.T) c15Case {
-		c := c15Case{Target: rapid.SampledFrom([]string{"est", "mod", "modqer", "del"}).Draw(rt, "target"), Shared: rapid.Bool().Draw(rt, "shared"), After: rapid.IntRange(2, 6).Draw(rt, "after"), Multi: map[int]string{}, DelOther: rapid.Bool().Draw(rt, "delother"), Asym: rapid.Bool().Draw(rt, "asym")}
+		c := c15Case{Target: rapid.SampledFrom([]string{"est", "mod", "modqer", "modpdr", "del"}).Draw(rt, "target"), Shared: rapid.Bool().Draw(rt, "shared"), After: rapid.IntRange(2, 6).Draw(rt, "after"), Multi: map[int]string{}, DelOther: rapid.Bool().Draw(rt, "delother"), Asym: rapid.Bool().Draw(rt, "asym"), Solo: rapid.IntRange(0, 3).Draw(rt, "solo") == 0}
 		for i := 0; i < rapid.IntRange(1, 3).Draw(rt, "nf"); i++ {
 			c.Multi[rapid.IntRange(1, 9).Draw(rt, "k")] = rapid.SampledFrom(c15Codes).Draw(rt, "code")
 		}
